@@ -239,24 +239,29 @@ PROPS = {
     },
     "C14": {
         "bin": "m_text",
-        "build": BUILD_VTEXT,
+        "engines": [{"bin": "m_text", "share": 2, "build": BUILD_VTEXT},
+                    {"bin": "m_lsp", "share": 1, "args": ["--glas-bin", GLAS_PLAIN], "build": BUILD_VH + BUILD_GLAS_PLAIN}],
+        "build": [],
         "level": "exploration",
         "budget": {"quick": 10, "thorough": 300},
         "timeout": {"quick": 900, "thorough": 7200},
         "death_is_violation": False,
         "rule": ("documents = exhaustively all strings of <=6 [thorough 7] symbols over {a, LF, 2-byte, 3-byte, 4-byte (2 UTF-16 units)} plus seeded random documents up to 64 KiB with long lines and dense astral runs; "
                  "for every character boundary: line_col_for_pos == the model client's (line, UTF-16 column), pos_for_line_col round trip, strict monotonicity, from_pos agreement; for all (sampled beyond 40 boundaries) ordered pairs "
-                 "to_range selects exactly text[a..b] in the model; last_line and end_col_for_line agree with the model. Non-trivial = contains a multi-byte character and a line break; distinct by FNV-1a."),
+                 "to_range selects exactly text[a..b] in the model; last_line and end_col_for_line agree with the model. Non-trivial = contains a multi-byte character and a line break; distinct by FNV-1a."
+                 " On the wire (m_lsp engine): a fresh real server per session and a client with its OWN capabilities - general.positionEncodings absent / [utf-16] / [utf-8,utf-16] / [utf-32,utf-16] / [utf-16,utf-8] / all three; semanticTokens.tokenTypes empty / the standard list / without namespace / none of the server's / reordered; optionally work-done progress, workspace/configuration and dynamic watched-file registration (server-to-client requests are answered), clientInfo Neovim / VS Code / absent. The document is a generated module with non-ASCII strings plus a fixed tail that puts identifiers after 2-, 3- and 4-byte characters on their line. Everything the server sends is decoded the way a client must: columns in the encoding the server ANNOUNCED in its initialize result (utf-16 if it announces none; it must be one the client offered), token types through the legend it ANNOUNCED. semanticTokens/full must decode to exactly the (byte range, type) list of Analysis::syntax_highlight on the same text in process; documentHighlight and hover asked at up to 10 [24] identifier tokens (those after non-ASCII text first), the position sent in the announced encoding, must select exactly the byte ranges the in-process analysis answers."),
         "exhaustive_scope": "documents up to the stated length over the 5-symbol alphabet, all boundaries and all ordered pairs",
         "assumptions": [
             "LineMap values are obtained through Vfs::set_path_content, i.e. the constructor the server uses; conversions are called through thin wrappers of glas::convert (feature verif)",
             "documents are CR-free here (the server strips CR on ingestion; CRLF handling is C13's)",
+            "wire engine: the expected byte ranges come from crate ide in process (the analysis is not what C14 judges); what is judged is the conversion between those offsets and what a client with the negotiated encoding reads and writes",
         ],
     },
     "C19": {
         "bin": "m_text",
         "engines": [{"bin": "m_text", "share": 3, "build": BUILD_VTEXT},
-                    {"bin": "m_types", "share": 1, "build": BUILD_VH}],
+                    {"bin": "m_types", "share": 1, "build": BUILD_VH},
+                    {"bin": "m_lsp", "share": 1, "args": ["--glas-bin", GLAS_PLAIN], "build": BUILD_VH + BUILD_GLAS_PLAIN}],
         "build": [],
         "level": "exploration",
         "budget": {"quick": 15, "thorough": 400},
@@ -265,7 +270,8 @@ PROPS = {
         "rule": ("(a) encoder, exhaustive: all documents of <=5 [thorough 6] symbols over {a, b, space, LF, 2-byte, 4-byte} x all position-sorted sets of disjoint single-line word ranges x rotating tags -> glas::convert::to_semantic_tokens -> "
                  "LSP decoder model: strictly increasing, non-empty, inside its line, type in legend, and decoded (line, UTF-16 start, length, type) == the model's for each range; (b) end to end: generated programs with non-ASCII strings "
                  "and comments -> Analysis::syntax_highlight -> encoder -> decoder, compared with the generator's sidecar (uses of functions -> function, constructor uses and constructor declaration names -> type, module qualifiers -> namespace, "
-                 "constants/types/fields/declaration names -> not highlighted, nothing highlighted that is not an identifier); range requests == intersecting sub-sequence of the full answer. Non-trivial = >=2 ranges and a multi-byte character. Third part (m_types engine): well-typed generated programs where the type of every local is known by construction - every use of a function-typed local must be tagged function and every use of a local of another type must carry no tag."),
+                 "constants/types/fields/declaration names -> not highlighted, nothing highlighted that is not an identifier); range requests == intersecting sub-sequence of the full answer. Non-trivial = >=2 ranges and a multi-byte character. Third part (m_types engine): well-typed generated programs where the type of every local is known by construction - every use of a function-typed local must be tagged function and every use of a local of another type must carry no tag."
+                 " On the wire (m_lsp engine): a fresh real server per session and a client with its OWN capabilities - general.positionEncodings absent / [utf-16] / [utf-8,utf-16] / [utf-32,utf-16] / [utf-16,utf-8] / all three; semanticTokens.tokenTypes empty / the standard list / without namespace / none of the server's / reordered; optionally work-done progress, workspace/configuration and dynamic watched-file registration (server-to-client requests are answered), clientInfo Neovim / VS Code / absent. The document is a generated module with non-ASCII strings plus a fixed tail that puts identifiers after 2-, 3- and 4-byte characters on their line. Everything the server sends is decoded the way a client must: columns in the encoding the server ANNOUNCED in its initialize result (utf-16 if it announces none; it must be one the client offered), token types through the legend it ANNOUNCED. semanticTokens/full must decode to exactly the (byte range, type) list of Analysis::syntax_highlight on the same text in process; documentHighlight and hover asked at up to 10 [24] identifier tokens (those after non-ASCII text first), the position sent in the announced encoding, must select exactly the byte ranges the in-process analysis answers."),
         "exhaustive_scope": "encoder inputs over the small-document space; programs are sampled",
         "assumptions": [
             "locals: the generator does not know whether a local is function-typed in scoped mode, either tag is accepted there; typed programs (engine m_types) decide that clause",
